@@ -315,6 +315,13 @@ func init() {
 		if err != nil {
 			return err
 		}
+		pps, err := runSocksBehindPP()
+		if err != nil {
+			return err
+		}
+		for _, tr := range pps {
+			lw.Write(tr)
+		}
 		seqServed := 0
 		for _, tr := range seq {
 			lw.Write(tr)
@@ -333,6 +340,110 @@ func init() {
 // per round, consecutive connections: a long non-SOCKS stream, alice's whole session in one write, a client that
 // sends one byte and hangs up, and a client that sends NOTHING. Only alice may be served. One P and no garbage
 // collection, so that the buffer pool hands buffers from one connection to the next.
+// runSocksBehindPP: the socks5 handler behind the shipped proxy_protocol handler (no matcher), over loopback TCP so that
+// the client decides what travels in one segment: a PROXY header and the first bytes of the SOCKS5 conversation together,
+// the rest later. The conversation as a whole decides; nothing of it may get lost between the two handlers.
+func runSocksBehindPP() ([]*socksTrace, error) {
+	tgt, err := newSocksTarget()
+	if err != nil {
+		return nil, err
+	}
+	defer tgt.ln.Close()
+	base, err := vh.CaddyContext()
+	if err != nil {
+		return nil, err
+	}
+	ctx, cancel := caddy.NewContext(base)
+	defer cancel()
+	srv := &layer4.Server{MatchingTimeout: caddy.Duration(2 * time.Second)}
+	raw, _ := json.Marshal([]map[string]any{{"handle": []map[string]any{{"handler": "proxy_protocol"},
+		{"handler": "socks5", "credentials": map[string]string{"alice": "secret"}}}}})
+	if err := json.Unmarshal(raw, &srv.Routes); err != nil {
+		return nil, err
+	}
+	if err := srv.Provision(ctx, zap.NewNop()); err != nil {
+		return nil, err
+	}
+	port := tgt.ln.Addr().(*net.TCPAddr).Port
+	alice := []byte{5, 1, 2, 1, 5, 'a', 'l', 'i', 'c', 'e', 6, 's', 'e', 'c', 'r', 'e', 't', 5, 1, 0, 1, 127, 0, 0, 1, byte(port >> 8), byte(port)}
+	cfg := map[string]any{"cmds": []string{}, "creds": []map[string]string{{"u": "alice", "p": "secret"}}, "form": "behind-pp"}
+	var out []*socksTrace
+	n := 0
+	one := func(name, hdr string, first, rest []byte, methods []int, may bool) error {
+		n++
+		ln, err := net.Listen("tcp", "127.0.0.1:0")
+		if err != nil {
+			return err
+		}
+		defer ln.Close()
+		cc, err := net.Dial("tcp", ln.Addr().String())
+		if err != nil {
+			return err
+		}
+		defer cc.Close()
+		sconn, err := ln.Accept()
+		if err != nil {
+			return err
+		}
+		before := tgt.accepts.Load()
+		tr := &socksTrace{ID: fmt.Sprintf("socks:behind-pp:%d:%s", n, name), Cfg: cfg,
+			Sc: map[string]any{"methods": methods, "auth": "right", "cmd": 1, "atyp": 1}, Method: -1, AuthRep: -1, Reply: -1, May: may}
+		done := make(chan struct{})
+		go func() {
+			defer close(done)
+			defer func() {
+				if r := recover(); r != nil {
+					tr.Panic = fmt.Sprint(r)
+				}
+			}()
+			layer4.VerifServerHandle(srv, sconn)
+		}()
+		var got []byte
+		rdone := make(chan struct{})
+		go func() {
+			defer close(rdone)
+			buf := make([]byte, 256)
+			for {
+				cc.SetReadDeadline(time.Now().Add(2 * time.Second))
+				k, err := cc.Read(buf)
+				got = append(got, buf[:k]...)
+				if err != nil {
+					return
+				}
+			}
+		}()
+		cc.Write(append([]byte(hdr), first...))
+		time.Sleep(30 * time.Millisecond)
+		cc.Write(rest)
+		time.Sleep(60 * time.Millisecond)
+		cc.(*net.TCPConn).CloseWrite()
+		select {
+		case <-done:
+		case <-time.After(3 * time.Second):
+		}
+		cc.Close()
+		<-rdone
+		for k := 0; k < 30 && tgt.accepts.Load() == before; k++ {
+			time.Sleep(time.Millisecond)
+		}
+		tr.Outbound = tgt.accepts.Load() > before
+		tr.Served = bytes.Contains(got, []byte{5, 0, 0, 1})
+		out = append(out, tr)
+		return nil
+	}
+	for _, hdr := range []string{"PROXY UNKNOWN\r\n", "PROXY TCP4 203.0.113.7 198.51.100.9 40000 443\r\n"} {
+		// a valid session, its first three bytes in the header's segment
+		if err := one("alice", hdr, alice[:3], alice[3:], []int{2}, true); err != nil {
+			return nil, err
+		}
+		// "05 01 05" in the header's segment, alice's whole session later: the conversation offers method 5 only
+		if err := one("odd", hdr, []byte{5, 1, 5}, alice, []int{5}, false); err != nil {
+			return nil, err
+		}
+	}
+	return out, nil
+}
+
 func runSocksServerSeq(rounds int) ([]*socksTrace, error) {
 	old := runtime.GOMAXPROCS(1)
 	defer runtime.GOMAXPROCS(old)
